@@ -78,6 +78,10 @@ fn honest_login_inner(h: &mut H, p: &Params) -> Option<Session> {
     let (mut vo, mut v) = h.register(p.user, p.pass, p.salt.as_ref().map(|s| &s[..]))?;
     if p.storage {
         let (u, ver, salt) = h.export(vo, &v);
+        // (a name the library hands out but would not accept back ends the scenario; the Export event shows it)
+        if wow_srp::normalized_string::NormalizedString::new(u.as_str()).is_err() {
+            return None;
+        }
         let (o2, v2) = h.import(&u, ver, salt);
         vo = o2;
         v = v2;
@@ -256,8 +260,22 @@ pub fn run_auth(args: &Args) -> (u64, u64) {
     }
     // three logins INTERLEAVED step by step on this thread (all register, then all proofs, all clients, all servers in
     // another order, all client verdicts, reconnects in turn): each object carries its own state, nothing is shared
+    // the same grid once more with NOISE: before every recorded call, unrelated functions of other modules run on this
+    // thread (PIN hashes with rejected PINs, integrity checks, refused keys and strings, header crypto, matrix cards,
+    // a refused login, a small-group client) - no call may leave anything behind for the next one
+    h.noisy = true;
+    for (ci, (u, p)) in CREDS.iter().enumerate() {
+        h.reset("auth-noise");
+        let prm = Params { user: u, pass: p, typed_user: &case_variant(u, ci), typed_pass: &case_variant(p, ci + 1), salt: None, b: None, a: None, storage: ci % 2 == 0 };
+        if let Some(mut sess) = honest_login(&mut h, &prm) {
+            good_reconnect(&mut h, &mut sess);
+            good_reconnect(&mut h, &mut sess);
+        }
+    }
+    h.noisy = false;
     for round in 0..(if thorough { 30 } else { 4 }) {
         h.reset("auth-interleaved");
+        h.noisy = round % 2 == 1;
         h.honest = true;
         let who: Vec<(String, String)> = (0..3).map(|i| if (round + i) % 2 == 0 { (CREDS[(round + i) % CREDS.len()].0.to_string(), CREDS[(round + i) % CREDS.len()].1.to_string()) } else { (rand_cred(&mut rng), rand_cred(&mut rng)) }).collect();
         let vs: Vec<_> = who.iter().map(|(u, p)| h.register(u, p, None)).collect();
@@ -296,6 +314,7 @@ pub fn run_auth(args: &Args) -> (u64, u64) {
             }
         }
         h.honest = false;
+        h.noisy = false;
     }
     // random sessions: random credentials, genuine RNG draws (nothing injected)
     let n = args.n.unwrap_or(if thorough { 20000 } else { 400 });
@@ -658,6 +677,63 @@ pub fn run_reconnect(args: &Args) -> (u64, u64) {
         }
         h.drop_event(s.so);
     }
+    // two live sessions of ONE account whose session keys share their first two bytes (found by logging the account in
+    // natively up to 900 times with injected server keys; input selection only), then reconnects on the older and the
+    // newer one in turn, and each client's proof presented to the other server
+    if h.det.is_none() {
+        h.reset("reconnect-twin-sessions");
+        let salt = rnd32(&mut rng);
+        clear_hooks();
+        inject("Salt", &salt);
+        let v0 = wow_srp::server::SrpVerifier::from_username_and_password(ns("TWIN"), ns("SESSIONS"));
+        clear_hooks();
+        let a = rnd32(&mut rng);
+        let mut seen: std::collections::HashMap<[u8; 2], [u8; 32]> = std::collections::HashMap::new();
+        let mut pairb: Option<([u8; 32], [u8; 32])> = None;
+        for _ in 0..900 {
+            let bk = rnd32(&mut rng);
+            clear_hooks();
+            inject("PrivateKey", &bk);
+            let r = guard(|| {
+                let p = v0.clone().into_proof();
+                let bpub = wow_srp::PublicKey::from_le_bytes(*p.server_public_key()).ok()?;
+                inject("PrivateKey", &a);
+                let c = wow_srp::client::SrpClientChallenge::new(ns("TWIN"), ns("SESSIONS"), 7, N_LE, bpub, *p.salt());
+                let apub = wow_srp::PublicKey::from_le_bytes(*c.client_public_key()).ok()?;
+                let (srv, _) = p.into_server(apub, *c.client_proof()).ok()?;
+                Some([srv.session_key()[0], srv.session_key()[1]])
+            });
+            clear_hooks();
+            if let Ok(Some(k2)) = r {
+                if let Some(prev) = seen.insert(k2, bk) {
+                    if prev != bk { pairb = Some((prev, bk)); break; }
+                }
+            }
+        }
+        if let Some((b1, b2)) = pairb {
+            let mk = |h: &mut H, bk: [u8; 32]| {
+                let prm = Params { user: "TWIN", pass: "SESSIONS", typed_user: "twin", typed_pass: "sessions", salt: Some(salt), b: Some(bk), a: Some(a), storage: false };
+                honest_login(h, &prm)
+            };
+            if let (Some(mut s1), Some(mut s2)) = (mk(&mut h, b1), mk(&mut h, b2)) {
+                for round in 0..3 {
+                    good_reconnect(&mut h, &mut s1);
+                    good_reconnect(&mut h, &mut s2);
+                    // each client's proof for the OTHER server's challenge: the keys differ, so both are refused
+                    let ch2 = *s2.server.reconnect_challenge_data();
+                    if let Some(r) = h.reconnect_values(s1.co, &s1.client, ch2, None) {
+                        h.verify_reconnect(s2.so, &mut s2.server, r.challenge_data, r.proof, "wrongK");
+                    }
+                    good_reconnect(&mut h, &mut s2);
+                    let ch1 = *s1.server.reconnect_challenge_data();
+                    if let Some(r) = h.reconnect_values(s2.co, &s2.client, ch1, None) {
+                        h.verify_reconnect(s1.so, &mut s1.server, r.challenge_data, r.proof, "wrongK");
+                    }
+                    if round == 1 { good_reconnect(&mut h, &mut s1); }
+                }
+            }
+        }
+    }
     // long legitimate run
     let long = if args.tier == "thorough" { 1000 } else { 100 };
     h.reset("reconnect-long");
@@ -681,6 +757,11 @@ pub fn run_reconnect(args: &Args) -> (u64, u64) {
             good_reconnect(&mut h, &mut s);
             good_reconnect(&mut h, &mut s);
             run *= 2;
+        }
+        // 70 000 refusals in a row (more than any 16-bit counter holds), then the legitimate client again
+        if h.bulk_reject(s.so, &mut s.server, 70_000) {
+            good_reconnect(&mut h, &mut s);
+            good_reconnect(&mut h, &mut s);
         }
     }
     h.tr.finish()
@@ -735,6 +816,29 @@ pub fn run_pubkey(args: &Args) -> (u64, u64) {
     let n = N_LE;
     h.pubkey(zero);
     h.pubkey(n);
+    // ORDER of calls: a valid key that collides with N (or 0) under a positional polynomial fingerprint of base 31, 33, 37,
+    // 131 or 257 - one byte one lower, its neighbour `base` higher, in either direction - directly followed by N (or 0)
+    for base in [31u16, 33, 37, 131, 257] {
+        for i in 0..31usize {
+            for (lo, hi) in [(i, i + 1), (i + 1, i)] {
+                for target in [n, zero] {
+                    let mut k = target;
+                    let up = k[hi] as u16 + (base % 256);
+                    if k[lo] == 0 || up > 255 || (base > 255 && hi + 1 > 31) {
+                        continue;
+                    }
+                    k[lo] -= 1;
+                    k[hi] = up as u8;
+                    if base > 255 {
+                        if k[hi + 1] == 255 { continue; }
+                        k[hi + 1] += 1;
+                    }
+                    h.pubkey(k);
+                    h.pubkey(target);
+                }
+            }
+        }
+    }
     // neighbours: 0 + d*256^i, N +- d*256^i (byte-wise wrapping, each still a 32-byte array)
     for i in 0..32 {
         for d in 1..=3u8 {
@@ -898,6 +1002,16 @@ pub fn run_adversary(args: &Args) -> (u64, u64) {
     sparse[31] = 1;
     let mut sparse2 = [0u8; 32];
     sparse2[16] = 0x80;
+    // a peer that keeps presenting wrong reconnect proofs: 300 and then 70 000 in a row never disturb the server
+    {
+        h.reset("adversary-bulk");
+        let prm = Params { user: "BULK", pass: "REJECT", typed_user: "BULK", typed_pass: "REJECT", salt: None, b: None, a: None, storage: false };
+        if let Some(mut s) = honest_login(&mut h, &prm) {
+            if h.bulk_reject(s.so, &mut s.server, 300) && h.bulk_reject(s.so, &mut s.server, 70_000) {
+                good_reconnect(&mut h, &mut s);
+            }
+        }
+    }
     for round in 0..rounds {
         h.reset("adversary");
         let (u, p) = CREDS[(round as usize) % CREDS.len()];
@@ -1025,6 +1139,25 @@ pub fn run_degenerate(args: &Args) -> (u64, u64) {
             }
         }
     }
+    // large NON-prime announced moduli: powers of two (2^64, 2^65, 2^128, 2^200, 2^255), 2^k - 1 and 2^k + 1 composites,
+    // a multiple of 256 - with server keys on both sides of 3 * g^x (negative and positive base B - k*g^x), odd and even a
+    {
+        let pow2 = |k: usize| { let mut n = [0u8; 32]; n[k / 8] = 1 << (k % 8); n };
+        let mut mods: Vec<[u8; 32]> = vec![pow2(64), pow2(65), pow2(128), pow2(200), pow2(255), pow2(63), pow2(16)];
+        let mut m = pow2(128); m[0] = 1; mods.push(m);                       // 2^128 + 1
+        let mut m = [0xFFu8; 32]; for x in m.iter_mut().skip(12) { *x = 0; } mods.push(m);   // 2^96 - 1
+        let mut m = [0u8; 32]; m[1] = 0x01; m[20] = 0x35; mods.push(m);      // a multiple of 256
+        for nn in mods {
+            for g in [2u8, 7, 255] {
+                for bb in [one, { let mut x = [0u8; 32]; x[0] = 2; x }, { let mut x = [0u8; 32]; x[0] = 0xF1; x[7] = 0x99; x }, [0x77u8; 32]] {
+                    let Some(bp) = h.pubkey(bb) else { continue };
+                    for a in [one, { let mut x = [0u8; 32]; x[0] = 2; x }, { let mut x = [0u8; 32]; x[0] = 0x3B; x[9] = 0x11; x }] {
+                        h.client_new("EDGE", "KEYS", g, nn, bp, [7u8; 32], Some(&a));
+                    }
+                }
+            }
+        }
+    }
     h.tr.finish()
 }
 
@@ -1057,6 +1190,22 @@ pub fn run_ownkey(args: &Args) -> (u64, u64) {
                 let mut g32 = [0u8; 32];
                 g32[0] = g;
                 h.pubkey(g32);
+            }
+        }
+    }
+    // announced moduli of two and more bytes whose LOW BYTES equal the client's own key: A = g^1 = N mod 256 (and the
+    // key 1 with moduli ending in 01) - A is not 0 modulo N, the login must go through
+    if let Some(bpub) = h.pubkey(one) {
+        let mods: Vec<Vec<u8>> = vec![vec![1, 1], vec![7, 1], vec![1, 0, 1], vec![0xFB, 0xFF], vec![0x0D, 0x01, 0x01], vec![0x2F, 0, 0, 0, 1],
+                                      N_LE[..].to_vec()];
+        for m in mods {
+            let mut nn = [0u8; 32];
+            nn[..m.len()].copy_from_slice(&m);
+            let g = m[0];
+            let mut a1 = [0u8; 32];
+            a1[0] = 1;
+            for (gg, a) in [(g, a1), (g, [0u8; 32]), (1u8, a1), (g, { let mut t = [0u8; 32]; t[0] = 2; t })] {
+                h.client_new("OWNKEY", "X", gg, nn, bpub, [1u8; 32], Some(&a));
             }
         }
     }
